@@ -27,6 +27,9 @@ func rulesC07(c *Ctx) {
 	c.Rule("fresh-executor")
 	c01Self(c)
 	buildCopiesConfig(c)
+	// "… when a retry policy encloses the Timeout" / under a hedge: one timeout executor serves concurrent attempts, so
+	// it must keep nothing per attempt on itself
+	c14ConfinementOf(c, "timeout")
 }
 
 func c07Race(c *Ctx) {
@@ -369,6 +372,7 @@ func rulesC09(c *Ctx) {
 	c.Rule("cancel-conditions")
 	c12Registrars(c)
 	c12AnyOf(c)
+	c12Unwrap(c)
 	c12Builders(c)
 }
 
